@@ -25,9 +25,18 @@ Project generation
        'module_procs': {module: [proc names]}}``
     ``kind`` in ``ProcedureItem|ModuleItem|TypeDefItem|InterfaceItem|ProcedureBindingItem|ExternalItem``;
     a dep is ``{'target': qualified item name, 'local': name as written in the item's scope,
-    'via': 'call'|'import'|'type'|'intf'|'bind'|'member', 'constrains_targets': bool}``.
+    'via': 'call'|'import'|'type'|'intf'|'bind'|'member', 'constrains_targets': bool}``
+    (+ ``'symbol'``: ``module#variable`` for imports of module variables, ``'unqualified'``: call resolved
+    through an import without only-list).
     Items that do not exist in the search path have kind ``ExternalItem`` and
     ``'origin'`` (``ProcedureItem`` / ``ModuleItem``).
+
+Gated constructs (flags default to ``False``; each is a known finding of C21 or behaviour the docs leave
+open, see ``known_findings/C21.json``): ``externals``, ``file_case_twins``, ``same_module_intf_call``,
+``unq_intf_member``, ``inline_only_functions``, ``modlevel_intf_import``, ``renamed_type_imports``,
+``dup_names_same_file``, ``multi_unit_file_internal_proc``; ``contiguous_modules=False`` allows cyclic
+file graphs (``Scheduler(full_parse=True)`` then fails).  ``Project.features`` names the constructs that
+were really generated; ``Project.config_features`` (set by ``gen_config``) the gated config constructs.
 
 Configurations
 --------------
@@ -253,7 +262,9 @@ class Project:
                 if kind in ('typedef', 'interface', 'function'):
                     deps.append(_dep(f'{u.module}#{remote}', local, 'import', True))
                 elif kind == 'global':
-                    deps.append(_dep(u.module, local, 'import', False))
+                    d = _dep(u.module, local, 'import', False)
+                    d['symbol'] = f'{u.module}#{remote}'   # exclusion entries are also matched against the variable
+                    deps.append(d)
         return deps
 
     def truth(self):
@@ -319,7 +330,7 @@ class Project:
         for it in items.values():
             seen, out = set(), []
             for d in it['deps']:
-                k = (d['target'], d['local'], d['via'])
+                k = (d['target'], d['local'], d['via'], d.get('symbol'))
                 if k not in seen:
                     seen.add(k)
                     out.append(d)
@@ -812,8 +823,6 @@ def gen_project(rng, flags=None):
         for q in chosen:
             if p.module and q.module and P.modules[q.module].rank < rank_of(p):
                 continue    # would need a module cycle
-            if p.is_function and q.argkind == 'r' and not q.bound_type:
-                pass
             add_call(P, p, q, rng, F, feats, import_symbol, type_var, binding_of, member_paths, intf_members)
     # remove the temporary 'this' typevar marker from emission (class(..) :: this is emitted separately)
     for p in P.procs:
@@ -1347,9 +1356,8 @@ def reference_closure(truth, config, seeds):
         ignore = list(conf.get('ignore', []) or [])
         for dep in items[name]['deps']:
             tgt = dep['target']
-            if match_keys(tgt, disable, patterns=True, parents=True):
-                continue
-            if match_keys(tgt, block, patterns=True, parents=True):
+            if any(match_keys(nm, disable + block, patterns=True, parents=True)
+                   for nm in [tgt] + ([dep['symbol']] if dep.get('symbol') else [])):
                 continue
             kind = items[tgt]['kind'] if tgt in items else 'ExternalItem'
             if kind == 'ExternalItem' and items.get(tgt, {}).get('origin') == 'ProcedureItem' \
